@@ -64,7 +64,7 @@ def cdf_table(pdf, lo, hi, knots, want_moments=False):
         if not (v > u):
             return 0.0
         with np.errstate(all="ignore"):
-            val, _err = integrate.quad(f, u, v, limit=400, epsabs=0, epsrel=1e-10)
+            val, _err = integrate.quad(f, u, v, limit=200, epsabs=0, epsrel=1e-8)
         return float(val) if np.isfinite(val) else float("nan")
     g = lambda x: (lambda p: p if np.isfinite(p) else 0.0)(pdf(float(x)))
     import warnings
@@ -245,7 +245,7 @@ def selftest():
                                ("invgamma", st.invgamma(2.5, loc=1.0, scale=3.0), 1.0, np.inf),
                                ("uniform", st.uniform(-1.0, 3.0), -1.0, 2.0),
                                ("laplace", st.laplace(0.5, 0.2), -np.inf, np.inf)):
-        x = dist.rvs(size=20000, random_state=rs)
+        x = dist.rvs(size=8000, random_state=rs)
         k = knots_from_sample(x, lo, hi)
         T = cdf_table(lambda t: 7.3 * float(dist.pdf(t)), lo, hi, k, want_moments=name in ("norm", "gamma3", "beta", "uniform", "laplace", "gamma.5"))
         q = np.sort(x)[::37]
